@@ -300,38 +300,43 @@ fn run_dates(ctx: &Ctx) -> SubReport {
     let seed = ctx.seed;
     let mk = move |shard: usize, shards: usize| {
         let mut v: Vec<u64> = Vec::new();
-        if thorough {
-            let last = days_from_civil(9999, 12, 31);
-            for d in 0..=last {
-                if d as usize % shards == shard {
-                    let sec = (d as u64).wrapping_mul(0x9E3779B97F4A7C15).wrapping_add(seed) % 86400;
-                    v.push(d as u64 * 86400 + sec);
+        // every day 1970-01-01 .. 9999-12-31; seconds of the day: a boundary value in rotation and a pseudo-random one
+        // (thorough: first, last and a pseudo-random second of every day)
+        const EDGE: [u64; 8] = [0, 86_399, 43_200, 3_599, 3_600, 59, 60, 86_340];
+        let last = days_from_civil(9999, 12, 31);
+        for d in 0..=last {
+            if d as usize % shards == shard {
+                let d = d as u64;
+                let sec = d.wrapping_mul(0x9E3779B97F4A7C15).wrapping_add(seed) % 86400;
+                v.push(d * 86400 + sec);
+                if thorough {
+                    v.push(d * 86400);
+                    v.push(d * 86400 + 86_399);
+                } else {
+                    v.push(d * 86400 + EDGE[(d % 8) as usize]);
                 }
             }
-        } else {
-            let mut idx = 0usize;
-            for y in 1970..=9999i64 {
-                let leap = (y % 4 == 0 && y % 100 != 0) || y % 400 == 0;
-                let mut days = vec![(1u32, 1u32), (2, 28), (3, 1), (12, 31)];
-                if leap {
-                    days.push((2, 29));
-                }
-                for (m, d) in days {
-                    if idx % shards == shard {
-                        let dd = days_from_civil(y, m, d) as u64;
-                        let sec = dd.wrapping_mul(0x9E3779B97F4A7C15).wrapping_add(seed) % 86400;
-                        v.push(dd * 86400 + sec);
-                        // and the very last / first second of that day
-                        v.push(dd * 86400 + if idx % 2 == 0 { 86399 } else { 0 });
-                    }
-                    idx += 1;
+        }
+        // every second of a few whole days (every hh:mm:ss rendering)
+        let mut whole = vec![days_from_civil(2000, 2, 29)];
+        if thorough {
+            whole.extend([days_from_civil(1970, 1, 1), days_from_civil(2038, 1, 19), days_from_civil(9999, 12, 31), days_from_civil(2100, 3, 1)]);
+        }
+        for d in whole {
+            for sec in 0..86_400u64 {
+                if sec as usize % shards == shard {
+                    v.push(d as u64 * 86400 + sec);
                 }
             }
         }
         v.into_iter()
     };
     let mut r = run_enumerated(ctx, "dates", &mk, &eval_date);
-    r.notes.push(if thorough { "every day 1970-01-01..9999-12-31 with one pseudo-random second each".into() } else { "Jan 1, Feb 28/29, Mar 1, Dec 31 of every year 1970..9999".into() });
+    r.notes.push(if thorough {
+        "every day 1970-01-01..9999-12-31 at its first, last and one pseudo-random second; every second of 5 whole days".into()
+    } else {
+        "every day 1970-01-01..9999-12-31 at one boundary second (rotating 00:00:00, 23:59:59, 12:00:00, 00:59:59, 01:00:00, 00:00:59, 00:01:00, 23:59:00) and one pseudo-random second; every second of 2000-02-29".into()
+    });
     r
 }
 
@@ -430,8 +435,8 @@ pub fn def() -> PropertyDef {
         id: "C18",
         level: "exploration",
         rule: "titles: any String (empty, multi-byte, long, arbitrary Unicode) on generated histories, with the 8 presence combinations of \
-               title/creation time/language and a differential run without metadata (isolation); dates: EXHAUSTIVE over Jan 1, Feb 28/29, Mar 1, Dec 31 \
-               of every year 1970..9999 (quick) / every day 1970..9999 (thorough) plus random instants, against an independent civil-from-days calendar; \
+               title/creation time/language and a differential run without metadata (isolation); dates: EXHAUSTIVE over the days 1970-01-01..9999-12-31 (two instants per day in the quick tier, three in the thorough tier) plus every second of whole days \
+               plus random instants, against an independent civil-from-days calendar; \
                languages: EXHAUSTIVE over all 26^3 codes on video-only and A/V files; termination for u64 extremes with a 10 s deadline. \
                Non-trivial = multi-byte title, leap-day / year-boundary date, code other than und/eng",
         assumptions: &["ISO-8601 string correctness is claimed up to year 9999; beyond only termination", "malformed language codes only require a well-formed file"],
